@@ -577,6 +577,21 @@ theorem cqmRebuild_cells {h : Heap} {d q v l o : Nat} {cs : List Nat} (hd : CWf 
   · rw [hF, if_neg (by omega), if_pos rfl]
 
 
+theorem cqmRebuild_next {h : Heap} {d q v l o : Nat} {cs : List Nat} (hd : CWf h d q v l o cs)
+    (ko kc : List Rat → List Rat) (gv gl : List Nat → List Nat) : (cqmRebuild h d ko kc gv gl).1.next = h.next + 8 + cs.length := by
+  obtain ⟨d1, d2, d3, d4, _, _, _, d8⟩ := hd
+  have hA : ∀ a, a < h.next → (cqmNew h).1.cell a = h.cell a := fun a ha => by
+    rw [cqmNew_cell, if_neg (by omega), if_neg (by omega), if_neg (by omega), if_neg (by omega), if_neg (by omega)]
+  have hAn : (cqmNew h).1.next = h.next + 5 := rfl
+  have hcs : ∀ X, constraintsOf (alloc (cqmNew h).1 X).1 (cppOf (alloc (cqmNew h).1 X).1 d) = cs := fun X => by
+    have e1 : (alloc (cqmNew h).1 X).1.cell d = h.cell d := (alloc_cell_old _ _ _ (by omega)).trans (hA d d3)
+    have e2 : (alloc (cqmNew h).1 X).1.cell q = h.cell q := (alloc_cell_old _ _ _ (by omega)).trans (hA q d4)
+    simp [constraintsOf, cppOf, e1, e2, d1, d2]
+  simp only [cqmRebuild, store_next, alloc_next, hcs]
+  rw [(copyCells_spec kc cs _ (fun c hc => by have := d8 c hc; simp only [alloc_next, hAn]; omega)).1]
+  simp only [alloc_next, hAn]
+  omega
+
 /-- the cells of a CQM object -/
 def cfp (h : Heap) (d : Nat) : List Nat :=
   d :: cppOf h d :: varsOf h d :: clabelsOf h d :: objectiveOf h (cppOf h d) :: constraintsOf h (cppOf h d)
@@ -636,5 +651,253 @@ theorem cqmRebuild_spec {h : Heap} {d q v l o : Nat} {cs : List Nat} (hd : CWf h
     intro c hc
     exact coeffsAt_congr (s1 c (d8 c hc))
 
+
+/-- a well-formed CQM object: shape, bounds, and no cell used twice -/
+def CGood (h : Heap) (d : Nat) : Prop := ∃ q v l o cs, CWf h d q v l o cs ∧ (d :: q :: v :: l :: o :: cs).Nodup
+
+theorem cfp_eq {h : Heap} {d q v l o : Nat} {cs : List Nat} (hd : CWf h d q v l o cs) : cfp h d = d :: q :: v :: l :: o :: cs := by
+  obtain ⟨d1, d2, _⟩ := hd
+  simp [cfp, cppOf, varsOf, clabelsOf, objectiveOf, constraintsOf, d1, d2]
+
+/-- one in-place edit of a CQM: it writes only cells of the CQM's own footprint or cells it allocates; the footprint grows by
+    allocated cells only; the object stays well-formed -/
+theorem cedit_step {h : Heap} {d : Nat} (hg : CGood h d) (e : CEdit) :
+    h.next ≤ (e.run h d).next ∧ CGood (e.run h d) d ∧
+    (∀ a, a < h.next → a ∉ cfp h d → (e.run h d).cell a = h.cell a) ∧
+    (∀ a ∈ cfp (e.run h d) d, a ∈ cfp h d ∨ a = h.next) := by
+  obtain ⟨q, v, l, o, cs, hw, hn⟩ := hg
+  have hfp := cfp_eq hw
+  obtain ⟨d1, d2, d3, d4, d5, d6, d7, d8⟩ := hw
+  simp only [List.nodup_cons, List.mem_cons, not_or] at hn
+  obtain ⟨⟨n1, n2, n3, n4, n5⟩, ⟨n6, n7, n8, n9⟩, ⟨n10, n11, n12⟩, ⟨n13, n14⟩, n15, n16⟩ := hn
+  have eq1 : cppOf h d = q := by simp [cppOf, d1]
+  have eq2 : varsOf h d = v := by simp [varsOf, d1]
+  have eq3 : clabelsOf h d = l := by simp [clabelsOf, d1]
+  have eq4 : objectiveOf h q = o := by simp [objectiveOf, d2]
+  have eq5 : constraintsOf h q = cs := by simp [constraintsOf, d2]
+  -- a store into a cell other than `d` and `q` keeps the shape
+  have keep : ∀ (x : Nat) (c : Cell), x ≠ d → x ≠ q → x < h.next →
+      CWf (store h x c) d q v l o cs := fun x c h1 h2 h3 =>
+    ⟨by rw [store_cell_other _ _ _ _ (Ne.symm h1)]; exact d1, by rw [store_cell_other _ _ _ _ (Ne.symm h2)]; exact d2, d3, d4, d5, d6, d7, d8⟩
+  have nd : (d :: q :: v :: l :: o :: cs).Nodup := by
+    simp only [List.nodup_cons, List.mem_cons, not_or]
+    exact ⟨⟨n1, n2, n3, n4, n5⟩, ⟨n6, n7, n8, n9⟩, ⟨n10, n11, n12⟩, ⟨n13, n14⟩, n15, n16⟩
+  have same_fp : ∀ (x : Nat) (c : Cell), x ≠ d → x ≠ q → x < h.next → x ∈ cfp h d →
+      h.next ≤ (store h x c).next ∧ CGood (store h x c) d ∧
+      (∀ a, a < h.next → a ∉ cfp h d → (store h x c).cell a = h.cell a) ∧
+      (∀ a ∈ cfp (store h x c) d, a ∈ cfp h d ∨ a = h.next) := fun x c h1 h2 h3 h4 => by
+    have hw' := keep x c h1 h2 h3
+    refine ⟨Nat.le_refl _, ⟨q, v, l, o, cs, hw', nd⟩, fun a _ ha => store_cell_other _ _ _ _ (fun e => ha (e ▸ h4)), fun a ha => ?_⟩
+    rw [cfp_eq hw'] at ha; rw [hfp]; exact Or.inl ha
+  cases e with
+  | objective f =>
+    simp only [CEdit.run, eq1, eq4]
+    exact same_fp o _ (Ne.symm n4) (Ne.symm n8) d7 (by rw [hfp]; simp)
+  | vars g =>
+    simp only [CEdit.run, eq2]
+    exact same_fp v _ (Ne.symm n2) (Ne.symm n6) d5 (by rw [hfp]; simp)
+  | clabels g =>
+    simp only [CEdit.run, eq3]
+    exact same_fp l _ (Ne.symm n3) (Ne.symm n7) d6 (by rw [hfp]; simp)
+  | constraint k f =>
+    simp only [CEdit.run, eq1, eq5]
+    cases hk : cs[k]? with
+    | none =>
+      simp only
+      refine ⟨Nat.le_refl _, ⟨q, v, l, o, cs, ⟨d1, d2, d3, d4, d5, d6, d7, d8⟩, nd⟩, fun _ _ _ => trivial, fun a ha => Or.inl ha⟩
+    | some c =>
+      simp only
+      have hc : c ∈ cs := List.mem_of_getElem? hk
+      exact same_fp c _ (fun e => n5 (e ▸ hc)) (fun e => n9 (e ▸ hc)) (d8 c hc) (by rw [hfp]; simp [hc])
+  | removeConstraint k =>
+    simp only [CEdit.run, setConstraints, eq1, eq4, eq5]
+    have hw' : CWf (store h q (.cqm o (cs.eraseIdx k))) d q v l o (cs.eraseIdx k) :=
+      ⟨by rw [store_cell_other _ _ _ _ n1]; exact d1, store_cell_same _ _ _, d3, d4, d5, d6, d7,
+        fun c hc => d8 c ((List.eraseIdx_sublist cs k).subset hc)⟩
+    have sub : (d :: q :: v :: l :: o :: cs.eraseIdx k).Sublist (d :: q :: v :: l :: o :: cs) := by
+      repeat apply List.Sublist.cons₂
+      exact List.eraseIdx_sublist cs k
+    refine ⟨Nat.le_refl _, ⟨q, v, l, o, _, hw', nd.sublist sub⟩,
+      fun a _ ha => store_cell_other _ _ _ _ (fun e => ha (by rw [hfp, e]; simp)), fun a ha => ?_⟩
+    rw [cfp_eq hw'] at ha; rw [hfp]; exact Or.inl (sub.subset ha)
+  | addConstraint c g =>
+    simp only [CEdit.run, setConstraints]
+    have hx : ∀ a, a < h.next → (alloc h (.coeffs c)).1.cell a = h.cell a := fun a ha => alloc_cell_old _ _ _ ha
+    have e1 : cppOf (alloc h (.coeffs c)).1 d = q := by simp [cppOf, hx d d3, d1]
+    have e4 : objectiveOf (alloc h (.coeffs c)).1 q = o := by simp [objectiveOf, hx q d4, d2]
+    have e5 : constraintsOf (alloc h (.coeffs c)).1 q = cs := by simp [constraintsOf, hx q d4, d2]
+    simp only [e1, e4, e5, alloc_addr]
+    have e3 : clabelsOf (store (alloc h (.coeffs c)).1 q (.cqm o (cs ++ [h.next]))) d = l := by
+      simp [clabelsOf, store_cell_other _ _ _ _ n1, hx d d3, d1]
+    simp only [e3]
+    generalize hL : Cell.labels _ = L
+    have hcell : ∀ a, (store (store (alloc h (.coeffs c)).1 q (.cqm o (cs ++ [h.next]))) l L).cell a =
+        if a = l then L else if a = q then .cqm o (cs ++ [h.next]) else if a = h.next then .coeffs c else h.cell a := fun a => by
+      rw [store_cell, store_cell, alloc_cell]
+    have hw' : CWf (store (store (alloc h (.coeffs c)).1 q (.cqm o (cs ++ [h.next]))) l L) d q v l o (cs ++ [h.next]) := by
+      refine ⟨?_, ?_, ?_, ?_, ?_, ?_, ?_, ?_⟩
+      · rw [hcell, if_neg n3, if_neg n1, if_neg (by omega)]; exact d1
+      · rw [hcell, if_neg n7, if_pos rfl]
+      all_goals first
+        | (show _ < h.next + 1; omega)
+        | (intro x hx'; show _ < h.next + 1; rcases List.mem_append.mp hx' with hh | hh
+           · have := d8 x hh; omega
+           · simp at hh; omega)
+    have hlt : ∀ a ∈ d :: q :: v :: l :: o :: cs, a < h.next := by
+      intro a ha
+      simp only [List.mem_cons] at ha
+      rcases ha with h1 | h1 | h1 | h1 | h1 | h1
+      · rw [h1]; exact d3
+      · rw [h1]; exact d4
+      · rw [h1]; exact d5
+      · rw [h1]; exact d6
+      · rw [h1]; exact d7
+      · exact d8 a h1
+    have nd' : (d :: q :: v :: l :: o :: (cs ++ [h.next])).Nodup := by
+      show ((d :: q :: v :: l :: o :: cs) ++ [h.next]).Nodup
+      rw [List.nodup_append]
+      exact ⟨nd, by simp, fun a ha b hb => by simp at hb; subst hb; exact Nat.ne_of_lt (hlt a ha)⟩
+    refine ⟨by show h.next ≤ h.next + 1; omega, ⟨q, v, l, o, _, hw', nd'⟩, fun a ha hna => ?_, fun a ha => ?_⟩
+    · rw [hfp] at hna
+      simp only [List.mem_cons, not_or] at hna
+      rw [hcell, if_neg hna.2.2.2.1, if_neg hna.2.1, if_neg (by omega)]
+    · rw [cfp_eq hw'] at ha; rw [hfp]
+      simp only [List.mem_cons, List.mem_append, List.mem_singleton] at ha ⊢
+      rcases ha with h1 | h1 | h1 | h1 | h1 | h1 | h1
+      · exact Or.inl (Or.inl h1)
+      · exact Or.inl (Or.inr (Or.inl h1))
+      · exact Or.inl (Or.inr (Or.inr (Or.inl h1)))
+      · exact Or.inl (Or.inr (Or.inr (Or.inr (Or.inl h1))))
+      · exact Or.inl (Or.inr (Or.inr (Or.inr (Or.inr (Or.inl h1)))))
+      · exact Or.inl (Or.inr (Or.inr (Or.inr (Or.inr (Or.inr h1)))))
+      · exact Or.inr (by simpa using h1)
+
+
+theorem cfp_lt {h : Heap} {d : Nat} (hg : CGood h d) : ∀ x ∈ cfp h d, x < h.next := by
+  obtain ⟨q, v, l, o, cs, hw, _⟩ := hg
+  rw [cfp_eq hw]
+  obtain ⟨_, _, d3, d4, d5, d6, d7, d8⟩ := hw
+  intro a ha
+  simp only [List.mem_cons] at ha
+  rcases ha with h1 | h1 | h1 | h1 | h1 | h1
+  · rw [h1]; exact d3
+  · rw [h1]; exact d4
+  · rw [h1]; exact d5
+  · rw [h1]; exact d6
+  · rw [h1]; exact d7
+  · exact d8 a h1
+
+/-- a CQM none of whose cells is written is the same object with the same contents -/
+theorem CGood.of_cells {h h' : Heap} {d : Nat} (hg : CGood h d) (hn : h.next ≤ h'.next) (hc : ∀ x ∈ cfp h d, h'.cell x = h.cell x) :
+    CGood h' d ∧ cfp h' d = cfp h d ∧ cobs h' d = cobs h d := by
+  obtain ⟨q, v, l, o, cs, hw, nd⟩ := hg
+  have hfp := cfp_eq hw
+  rw [hfp] at hc
+  obtain ⟨d1, d2, d3, d4, d5, d6, d7, d8⟩ := hw
+  have c0 : h'.cell d = h.cell d := hc d (by simp)
+  have cq : h'.cell q = h.cell q := hc q (by simp)
+  have hw' : CWf h' d q v l o cs := ⟨c0.trans d1, cq.trans d2, by omega, by omega, by omega, by omega, by omega, fun c hcc => by have := d8 c hcc; omega⟩
+  refine ⟨⟨q, v, l, o, cs, hw', nd⟩, by rw [cfp_eq hw', hfp], ?_⟩
+  have eq1 : cppOf h' d = q := by simp [cppOf, c0, d1]
+  have eq2 : cppOf h d = q := by simp [cppOf, d1]
+  have eq3 : varsOf h' d = v := by simp [varsOf, c0, d1]
+  have eq4 : varsOf h d = v := by simp [varsOf, d1]
+  have eq5 : clabelsOf h' d = l := by simp [clabelsOf, c0, d1]
+  have eq6 : clabelsOf h d = l := by simp [clabelsOf, d1]
+  have eq7 : objectiveOf h' q = o := by simp [objectiveOf, cq, d2]
+  have eq8 : objectiveOf h q = o := by simp [objectiveOf, d2]
+  have eq9 : constraintsOf h' q = cs := by simp [constraintsOf, cq, d2]
+  have eq10 : constraintsOf h q = cs := by simp [constraintsOf, d2]
+  simp only [cobs, eq1, eq2, eq3, eq4, eq5, eq6, eq7, eq8, eq9, eq10, coeffsAt_congr (hc o (by simp)), labelsAt_congr (hc v (by simp)),
+    labelsAt_congr (hc l (by simp))]
+  congr 2
+  apply List.map_congr_left
+  intro c hcc
+  exact coeffsAt_congr (hc c (by simp [hcc]))
+
+/-- two CQM objects with no cell in common -/
+def CSep (h : Heap) (a b : Nat) : Prop := CGood h a ∧ CGood h b ∧ ∀ x ∈ cfp h a, x ∉ cfp h b
+
+theorem CSep.symm {h : Heap} {a b : Nat} (s : CSep h a b) : CSep h b a := ⟨s.2.1, s.1, fun x hx hxa => s.2.2 x hxa hx⟩
+
+/-- an in-place edit of one of two separate CQMs leaves every cell of the other alone — the other reads the same — and they stay separate -/
+theorem csep_step {h : Heap} {a b : Nat} (s : CSep h a b) (e : CEdit) :
+    CSep (e.run h a) a b ∧ (∀ x ∈ cfp h b, (e.run h a).cell x = h.cell x) ∧ cobs (e.run h a) b = cobs h b := by
+  obtain ⟨sa, sb, sd⟩ := s
+  obtain ⟨n, g', fr, incl⟩ := cedit_step sa e
+  have hcells : ∀ x ∈ cfp h b, (e.run h a).cell x = h.cell x := fun x hx => fr x (cfp_lt sb x hx) (fun hxa => sd x hxa hx)
+  obtain ⟨gb, fpb, ob⟩ := sb.of_cells n hcells
+  refine ⟨⟨g', gb, fun x hx => ?_⟩, hcells, ob⟩
+  rw [fpb]
+  rcases incl x hx with h1 | h1
+  · exact sd x h1
+  · intro hxb; have := cfp_lt sb x hxb; omega
+
+/-- separation is an invariant of every interleaved edit history -/
+theorem csep_history {h : Heap} {a b : Nat} (s : CSep h a b) (es : List (Bool × CEdit)) : CSep (runCEdits h a b es) a b := by
+  induction es generalizing h with
+  | nil => exact s
+  | cons p t ih =>
+    obtain ⟨side, e⟩ := p
+    cases side with
+    | false => exact ih (csep_step s e).1
+    | true => exact ih (csep_step s.symm e).1.symm
+
+/-- any history of edits of one CQM leaves the other reading the same -/
+theorem csep_one_sided {h : Heap} {a b : Nat} (s : CSep h a b) (es : List CEdit) :
+    CSep (es.foldl (fun acc e => e.run acc a) h) a b ∧ cobs (es.foldl (fun acc e => e.run acc a) h) b = cobs h b := by
+  induction es generalizing h with
+  | nil => exact ⟨s, rfl⟩
+  | cons e t ih =>
+    obtain ⟨s', _, o'⟩ := csep_step s e
+    obtain ⟨s'', o''⟩ := ih s'
+    exact ⟨s'', o''.trans o'⟩
+
+/-- the CQM made by `copy.deepcopy` / `fix_variables(inplace=False)` and its receiver are separate, well-formed objects -/
+theorem csep_of_rebuild {h : Heap} {d : Nat} (hg : CGood h d) (ko kc : List Rat → List Rat) (gv gl : List Nat → List Nat) :
+    CSep (cqmRebuild h d ko kc gv gl).1 d (cqmRebuild h d ko kc gv gl).2 := by
+  obtain ⟨q, v, l, o, cs, hw, nd⟩ := hg
+  obtain ⟨s1, s2, s3, s4, s5, s6, s7, s8⟩ := cqmRebuild_cells hw ko kc gv gl
+  have s9 := cqmRebuild_next hw ko kc gv gl
+  have hfp := cfp_eq hw
+  have hlt := cfp_lt ⟨q, v, l, o, cs, hw, nd⟩
+  obtain ⟨gd, fpd, _⟩ := CGood.of_cells (h' := (cqmRebuild h d ko kc gv gl).1) ⟨q, v, l, o, cs, hw, nd⟩ (by rw [s9]; omega)
+    (fun x hx => s1 x (hlt x hx))
+  generalize cqmRebuild h d ko kc gv gl = r at *
+  rw [s2]
+  have hw' : CWf r.1 (h.next + 4) (h.next + 1) (h.next + 7 + cs.length) (h.next + 6 + cs.length) (h.next + 5) (List.range' (h.next + 6) cs.length) :=
+    ⟨s3, s4, by omega, by omega, by omega, by omega, by omega, fun c hc => by rw [List.mem_range'_1] at hc; omega⟩
+  have nd' : ((h.next + 4) :: (h.next + 1) :: (h.next + 7 + cs.length) :: (h.next + 6 + cs.length) :: (h.next + 5) :: List.range' (h.next + 6) cs.length).Nodup := by
+    simp only [List.nodup_cons, List.mem_cons, List.mem_range'_1, not_or]
+    refine ⟨⟨by omega, by omega, by omega, by omega, by omega⟩, ⟨by omega, by omega, by omega, by omega⟩, ⟨by omega, by omega, by omega⟩, ⟨by omega, by omega⟩, by omega, List.nodup_range'⟩
+  refine ⟨gd, ⟨_, _, _, _, _, hw', nd'⟩, fun x hx => ?_⟩
+  rw [fpd] at hx
+  have := hlt x hx
+  rw [cfp_eq hw']
+  simp only [List.mem_cons, List.mem_range'_1, not_or]
+  refine ⟨by omega, by omega, by omega, by omega, by omega, by omega⟩
+
+
+/-- a model (BQM / QM) none of whose cells belongs to a CQM: any history of in-place edits of the CQM leaves the model reading the same
+    (and the separation persists) -/
+theorem cqm_edits_leave_model {h : Heap} {d m : Nat} (hg : CGood h d) (hm : Born 0 h m)
+    (hdis : m ∉ cfp h d ∧ cppOf h m ∉ cfp h d ∧ varsOf h m ∉ cfp h d) (es : List CEdit) :
+    obs (es.foldl (fun acc e => e.run acc d) h) m = obs h m ∧ Born 0 (es.foldl (fun acc e => e.run acc d) h) m := by
+  induction es generalizing h with
+  | nil => exact ⟨rfl, hm⟩
+  | cons e t ih =>
+    obtain ⟨n, g', fr, incl⟩ := cedit_step hg e
+    obtain ⟨c, v, k1, k2, k3, k4, k5, k6, k7, k8, k9, k10⟩ := hm
+    have ec := cppOf_eq k1
+    have ev := varsOf_eq k1
+    rw [ec, ev] at hdis
+    have hm' : Born 0 h m := ⟨c, v, k1, k2, k3, k4, k5, k6, k7, k8, k9, k10⟩
+    obtain ⟨b1, b2, b3, b4⟩ := hm'.of_cells n (fr m k3 hdis.1) (by rw [ec]; exact fr c k5 hdis.2.1) (by rw [ev]; exact fr v k7 hdis.2.2)
+    have nin : ∀ x, x < h.next → x ∉ cfp h d → x ∉ cfp (e.run h d) d := fun x hx hnx hx' => by
+      rcases incl x hx' with h1 | h1
+      · exact hnx h1
+      · omega
+    obtain ⟨i1, i2⟩ := ih g' b1 (by rw [b3, b4, ec, ev]; exact ⟨nin m k3 hdis.1, nin c k5 hdis.2.1, nin v k7 hdis.2.2⟩)
+    exact ⟨by simp only [List.foldl_cons]; exact i1.trans b2, i2⟩
 
 end MHeap
